@@ -76,7 +76,7 @@ ASSUMPTIONS = [
 ]
 NSHARDS = {"quick": 16, "thorough": 16}
 TIMEOUT_S = {"quick": 240, "thorough": 1500}
-BUDGET_S = {"quick": 90, "thorough": 420}
+BUDGET_S = {"quick": 90, "thorough": 300}
 REQUIRE = {
     "hook_evaluations": 5000,
     "connections_accepted": 1000,
